@@ -38,7 +38,8 @@ def cases(tier, seed):
     out = [{"kind": "ivp_restart", "solver": "ScipyIVP", "rep": r} for r in range({"quick": 3, "thorough": 40}[tier])]
     for i in range(n):
         out.append({"solver": SOLVERS[i % len(SOLVERS)], "dt": DTS[(i // len(SOLVERS)) % len(DTS)], "closed": (i // 3) % 4 == 0,
-                    "base": ["origin", "origin", "moving", "rotating"][(i // 5) % 4], "actuated": (i // len(SOLVERS)) % 3 == 1})
+                    "base": ["origin", "origin", "moving", "rotating"][(i // 5) % 4], "actuated": (i // len(SOLVERS)) % 3 == 1,
+                    "rest_start": (i // 7) % 2 == 0, "no_cic": SOLVERS[i % len(SOLVERS)] == "ScipyIVP" and (i // len(SOLVERS)) % 2 == 0})
     return out
 
 
@@ -119,10 +120,18 @@ def run_case(spec, ctx):
         warnings.simplefilter("ignore")
         kinds = ["Revolute", "Spherical", "Revolute"] if spec.get("actuated") else None      # actuated chains (motors / PD controllers sit on revolute joints)
         S, bodies, joints, info = chaingen.build_chain(rng, closed=spec["closed"], base=spec["base"], t0=float(rng.normal()) if rng.random() < 0.3 else 0.0, actuators=True,
-                                                       joint_kinds=kinds)
+                                                       joint_kinds=kinds, rest_start=bool(spec.get("rest_start")))
+        if spec.get("rest_start") and spec["base"] != "origin":
+            ctx.cls("base:starts_from_rest")
         det = {**spec, **info, "nsteps": nsteps}
         try:
-            S.assemble(options=SolverOptions())
+            if spec.get("no_cic"):
+                # the ODE wrapper must report consistent accelerations / multipliers at t0 as well, whether or not assembly
+                # was asked to precompute them
+                S.assemble(options=SolverOptions(compute_consistent_initial_conditions=False))
+                ctx.cls("assemble:without_consistent_initial_conditions")
+            else:
+                S.assemble(options=SolverOptions())
         except Exception as e:
             ctx.undecided(f"assemble: {type(e).__name__}: {e}"[:150])
             ctx.sig([det], nontrivial=False)
